@@ -57,10 +57,11 @@ func runC01(cx *Ctx, r *Report) {
 	byFrame := map[*Frame][]evw{}
 	var order []*Frame
 	for _, x := range all {
-		if _, ok := byFrame[x.ev.Fr]; !ok {
-			order = append(order, x.ev.Fr)
+		hf := hostFrame(x.ev.Fr)
+		if _, ok := byFrame[hf]; !ok {
+			order = append(order, hf)
 		}
-		byFrame[x.ev.Fr] = append(byFrame[x.ev.Fr], x)
+		byFrame[hf] = append(byFrame[hf], x)
 	}
 	kc := keyCounter{}
 	E := "1000000000000000000"
